@@ -353,7 +353,9 @@ func c04(c *ev.Ctx) {
 	})
 	// a slice / map field is handed out by reference from the per-run field table: no
 	// built-in applied to it may change what the field shows afterwards
-	c16BuiltinsKeepArgument(c, "Tags", func(lit string) (string, map[string]interface{}) { return "", map[string]interface{}{"__field__": true} })
+	c16BuiltinsKeepArgument(c, "Tags", func(lit string) (string, map[string]interface{}) {
+		return "", map[string]interface{}{"__field__": true}
+	})
 	// a failing run between two objects (error, panic, arity mismatch, unknown function,
 	// inside and outside a user function): the next run still sees its own object
 	faults := []string{`return 1 / Zero;`, `return 1 % Zero;`, `panic("x");`, `return chk(1, 2);`, `return chk();`, `return nosuch(1);`, `return [1]["k"];`,
